@@ -61,6 +61,7 @@ structure Mono (f : Nat) : Prop where
   structInit1Loop : ∀ ms toks init mem first, Le (structInit1Loop f ms toks init mem first) (structInit1Loop (f+1) ms toks init mem first)
   structInit1 : ∀ ms toks init, Le (structInit1 f ms toks init) (structInit1 (f+1) ms toks init)
   structInit2 : ∀ ms toks init mem first, Le (structInit2 f ms toks init mem first) (structInit2 (f+1) ms toks init mem first)
+  unionRest : ∀ ms toks init, Le (unionRest f ms toks init) (unionRest (f+1) ms toks init)
   unionInit : ∀ ms toks init, Le (unionInit f ms toks init) (unionInit (f+1) ms toks init)
   initializer2 : ∀ ty toks init, Le (initializer2 f ty toks init) (initializer2 (f+1) ty toks init)
 
@@ -78,6 +79,7 @@ macro "mono_step" ih:ident : tactic => `(tactic|
     | exact ($ih).structInit1Loop ..
     | exact ($ih).structInit1 ..
     | exact ($ih).structInit2 ..
+    | exact ($ih).unionRest ..
     | exact ($ih).unionInit ..
     | exact ($ih).initializer2 ..
     | exact skipExcess_mono ..
@@ -98,6 +100,7 @@ theorem mono_zero : Mono 0 where
   structInit1Loop := fun _ _ _ _ _ => Or.inl rfl
   structInit1 := fun _ _ _ => Or.inl rfl
   structInit2 := fun _ _ _ _ _ => Or.inl rfl
+  unionRest := fun _ _ _ => Or.inl rfl
   unionInit := fun _ _ _ => Or.inl rfl
   initializer2 := fun _ _ _ => Or.inl rfl
 
@@ -112,6 +115,7 @@ theorem mono_succ (f : Nat) (ih : Mono f) : Mono (f+1) where
   structInit1Loop := by intro ms toks init mem first; simp only [Init.structInit1Loop]; mono_step ih
   structInit1 := by intro ms toks init; simp only [Init.structInit1]; mono_step ih
   structInit2 := by intro ms toks init mem first; simp only [Init.structInit2]; mono_step ih
+  unionRest := by intro ms toks init; simp only [Init.unionRest]; mono_step ih
   unionInit := by intro ms toks init; simp only [Init.unionInit]; mono_step ih
   initializer2 := by intro ty toks init; simp only [Init.initializer2]; mono_step ih
 
